@@ -34,8 +34,11 @@ def c17_histories(tier, seed):
             continue
         rng = random.Random(seed * 1000 + int(pid[1:]))
         hs = list(wl("quick", rng))
-        rng.shuffle(hs)
-        for meta, ops in hs[:per]:
+        # the small deterministic families (boundary values) always take part
+        fam = [h for h in hs if h[0].get("family")]
+        rest = [h for h in hs if not h[0].get("family")]
+        rng.shuffle(rest)
+        for meta, ops in fam[:200] + rest[:per]:
             m = dict(meta)
             m["from"] = pid
             out.append((m, ops))
